@@ -272,7 +272,7 @@ def shard_main(check: Check, tier: str, seed: int, shard: int, nshards: int, onl
         check.setup()
     res = []
     for sub in check.subchecks:
-        if only and sub.name != only:
+        if only and sub.name not in only.split(",") and not any(sub.name.startswith(o[:-1]) for o in only.split(",") if o.endswith("*")):
             continue
         ns = sub.shards or nshards
         if shard >= ns:
